@@ -21,6 +21,20 @@ func init() {
 			a.cipherBuffers("K.cipher-buffers")
 			a.c14Sender()
 			a.signatureLayout("K.signature")
+			// messages the specification's sender produces are accepted: the stored peer values that later messages are checked
+			// against (the peer's DH value of the exchange, the peer's counter) move only with verified/authentic messages
+			a.theirDHWriters()
+			auth10, _ := a.dataAuthFacts()
+			a.counterStoreGate("G.counter-store", auth10)
+			// numbers in the fragment prefix: index and count are decimal 16-bit, instance tags hexadecimal 32-bit
+			for _, nf := range []struct{ fn, base, bits string }{{"bytesToUint16", "10", "16"}, {"parseItag", "16", "32"}} {
+				if f := a.MustFn(nf.fn); f != nil {
+					if c := a.uniqueCall("K.text", f, "strconv.ParseUint"); c != nil {
+						a.TermIs("K.text", nf.fn+"|base", "number base", c, c.Call.Args[1], nf.base)
+						a.TermIs("K.text", nf.fn+"|bits", "number width", c, c.Call.Args[2], nf.bits)
+					}
+				}
+			}
 			a.c10Text("K.text")
 			a.c10SMPIndices("K.smp-indices")
 			a.groupConstants("K.group")
